@@ -603,6 +603,18 @@ def r2c_shared_trunk(repo: Repo, rep):
         rep.check(R3, ok, gi.site(), gi.fq, "idx -> (idx // m, idx % m) with one radix m and __len__ = m * (other count)",
                   f"branch digit = {db[0]}({db[1]}), trunk digit = {dt[0]}({dt[1]}) — one index drives both windows; __len__ = {lens[0][:90] if lens else None}",
                   f"{db}|{dt}")
+        if ok:
+            # independent digits enumerate the pairs only if the pass is as long as the product of the two digit ranges
+            def product(t):
+                try:
+                    e = ast.parse(t, mode="eval").body
+                except SyntaxError:
+                    return False
+                while isinstance(e, ast.Call) and attr_chain(e.func) in ("int", "round") and len(e.args) == 1:
+                    e = e.args[0]
+                return isinstance(e, ast.BinOp) and isinstance(e.op, ast.Mult)
+            rep.check(R3, bool(lens) and all(product(t) for t in lens), ln.site(), ln.fq, "with independent digits __len__ is the product of the two digit ranges (every function batch meets every location batch)",
+                      f"__len__ = {lens[0][:120] if lens else None}", f"independent digits, __len__ = {lens[0][:80] if lens else None}")
 
 
 # ------------------------------------------------------------------ R-C16-4
@@ -641,6 +653,14 @@ def data_loss_rules(repo: Repo, rep, R_full: str, R_single: str):
             if stored:
                 rep.violation(R_full, fi.site(stored[0]), fi.fq, "every evaluation on the full data set walks a fresh pass over self.dataloader",
                               f"loops over the stored `{dump(stored[0].iter)}` (exhausted after the first evaluation)", f"full-data loop over stored {dump(stored[0].iter)}")
+                continue
+        if not loops:
+            # an override that evaluates the full data set without a pass over the loader: whatever it computes, it is not the aggregate of the batches the loader delivers
+            direct = [dump(c)[:60] for c in ast.walk(fi.node) if isinstance(c, ast.Call) and dump(c.func) in ("self._compute_dist",)]
+            delegating = [c for c in ast.walk(fi.node) if isinstance(c, ast.Call) and dump(c.func) == "super().forward"]
+            if direct:
+                rep.violation(R_full, fi.site(), fi.fq, "the loss on the full data set is aggregated over the batches of self.dataloader", f"computed without a pass over the loader: {direct[0]}"
+                              + (" (the other configurations delegate to super().forward)" if delegating else ""), "full-data loss without the loader")
                 continue
         if len(loops) != 1:
             rep.undecided(R_full, fi.site(), fi.fq, "one loop over self.dataloader", f"{len(loops)} loops")
